@@ -221,14 +221,55 @@ def flush(ctx, report):
     ok2 = len(reg) == 1 and src(reg[0].args[0]) == "self._flush_implicit_buffers"
     report.check(ok and ok2, "R-MUSTCALL", init, "the flush observer is registered before the first mode is activated",
                  [short(c) for c in reg], "2")
+    report.section("mode-switch notification", notifying_dict, ctx, report)
+
+
+def notifying_dict(ctx, report):
+    """NotifyingDict folded: a recording observer (a host callable that also looks at the dictionary when it is called)
+    registered on a dictionary with two keys; set_active over every sequence of <= 3 keys: the observer is called exactly
+    when the key changes, with (old key, new key), while the active key is still the old one; afterwards the active key is
+    the new one; an unknown key raises"""
+    import itertools
+    from ..core.constfold import Folder, FoldRaise, Stub
+    idx = ctx.index
     sa = idx.get_function(SPC, "NotifyingDict.set_active")
     report.covered(sa)
-    t = [n for n in walk_no_nested(sa.node) if isinstance(n, ast.If) and any(isinstance(x, ast.For) for x in n.body)]
-    ok = len(t) == 1 and src(t[0].test) == "key != self.active_key" and \
-        any(isinstance(c, ast.Call) and src(c) == "observer(self.active_key, key)" for c in walk_no_nested(t[0]))
-    upd = [n for n in walk_no_nested(sa.node) if isinstance(n, ast.Assign) and src(n.targets[0]) == "self.active_key"]
-    ok2 = len(upd) == 1 and t and upd[0].lineno > t[0].lineno
-    report.check(ok and ok2, "R-ORDER", sa, "observers see the OLD key before the active key changes", None, "2")
+    bad = []
+    n = 0
+    for seq in itertools.chain.from_iterable(itertools.product(("a", "b"), repeat=k) for k in (1, 2, 3)):
+        n += 1
+        F = Folder(idx)
+        F.object_classes = "*"
+        try:
+            nd = F.eval_in("pycaption.scc.specialized_collections", ast.parse("NotifyingDict(a=1, b=2)", mode="eval").body, {})
+            calls = []
+
+            def observer(old, new, nd=nd, calls=calls):
+                calls.append((old if isinstance(old, str) else None, new, nd.attrs.get("active_key") if isinstance(
+                    nd.attrs.get("active_key"), str) else None))
+            F.call_function(nd.cls.find_method("add_change_observer"), [observer], {}, self_value=nd)
+            want, cur = [], None
+            for k in seq:
+                F.call_function(sa, [k], {}, self_value=nd)
+                if k != cur:
+                    want.append((cur, k, cur))
+                cur = k
+                if nd.attrs.get("active_key") != k:
+                    bad.append({"keys": list(seq), "active_key_after": str(nd.attrs.get("active_key")), "required": k})
+                    break
+            if calls != want:
+                bad.append({"keys": list(seq), "observer_calls (old, new, active key at the time)": calls, "required": want})
+            try:
+                F.call_function(sa, ["zz"], {}, self_value=nd)
+                bad.append({"keys": list(seq), "why": "set_active of a key that is not present does not raise"})
+            except FoldRaise:
+                pass
+        except FoldRaise as e:
+            bad.append({"keys": list(seq), "raises": f"{e.exc_name}: {e}"[:100]})
+        except AnalysisError as e:
+            raise AnalysisError(f"NotifyingDict cannot be folded: {e}")
+    report.check(not bad, "R-ORDER", sa, "observers are told (old key, new key) exactly when the active key changes, and see the OLD "
+                 "key still active", {"key_sequences": n, "mismatches": bad[:3]}, "2")
     # emptiness: folded on buffers built by command sequences
     from . import scc_buffer
     scc_buffer.emptiness(ctx, report, "2")
